@@ -57,6 +57,39 @@ impl AsRef<[u8]> for KSecretKey {
 //@ end
 }
 
+impl AsRef<[u8; SHA256_OUTPUT_LEN]> for KDateKey {
+//@ fn signing_key.rs impl AsRef<[u8; SHA256_OUTPUT_LEN]> for KDateKey :: as_ref
+//@ props C08 C06 C01
+//@ ret r
+//@ spec
+    ensures r@ == self.k(), //# C06 C01 name=key_bytes
+//@ end
+}
+impl AsRef<[u8; SHA256_OUTPUT_LEN]> for KRegionKey {
+//@ fn signing_key.rs impl AsRef<[u8; SHA256_OUTPUT_LEN]> for KRegionKey :: as_ref
+//@ props C08 C06 C01
+//@ ret r
+//@ spec
+    ensures r@ == self.k(), //# C06 C01 name=key_bytes
+//@ end
+}
+impl AsRef<[u8; SHA256_OUTPUT_LEN]> for KServiceKey {
+//@ fn signing_key.rs impl AsRef<[u8; SHA256_OUTPUT_LEN]> for KServiceKey :: as_ref
+//@ props C08 C06 C01
+//@ ret r
+//@ spec
+    ensures r@ == self.k(), //# C06 C01 name=key_bytes
+//@ end
+}
+impl AsRef<[u8; SHA256_OUTPUT_LEN]> for KSigningKey {
+//@ fn signing_key.rs impl AsRef<[u8; SHA256_OUTPUT_LEN]> for KSigningKey :: as_ref
+//@ props C08 C06 C01
+//@ ret r
+//@ spec
+    ensures r@ == self.k(), //# C06 C01 name=key_bytes
+//@ end
+}
+
 impl KSecretKey {
 //@ fn signing_key.rs impl KSecretKey :: to_kdate
 //@ props C08 C06
